@@ -397,6 +397,9 @@ func Run(sc Scenario, w *World) *Runner {
 		rn.cwg.Add(1)
 		go rn.client(cl)
 	}
+	if f := scripts[sc.Script]; f != nil {
+		f(rn)
+	}
 	for _, st := range sc.Steps {
 		rn.sleepUntil(st.At)
 		rn.doStep(st)
